@@ -904,6 +904,40 @@ func (env *Env) call(x *ECall) (EV, error) {
 		return EV{}, fmt.Errorf("unsupported call form")
 	}
 	switch id.Name {
+	case "iter":
+		// iter(e) in an invariant of an inner loop: e at the start of the current iteration of the
+		// enclosing loop (for event loops: when the select was entered)
+		if len(x.Args) != 1 || env.loop == nil || env.frame == nil {
+			return EV{}, fmt.Errorf("iter(expr) is only available in the invariant of a nested loop")
+		}
+		var outer *Loop
+		for _, l := range ex.ctx.loopsOf(env.frame.Fn) {
+			if l != env.loop && l.Blocks[env.loop.Header] && (outer == nil || len(l.Blocks) < len(outer.Blocks)) {
+				outer = l
+			}
+		}
+		if outer == nil || ex.iterStart == nil || ex.iterStart[outer.Header] == nil {
+			if ex.disc != nil {
+				// while the outer loop is only being explored for the locations it writes, there is
+				// no iteration start yet: the value is irrelevant there
+				return env.eval(x.Args[0])
+			}
+			return EV{}, &bindErr{"iter(): no enclosing loop iteration"}
+		}
+		{
+			n := *env
+			n.st = ex.iterStart[outer.Header]
+			n.cur = env.st
+			n.oldMid = true
+			v, err := n.eval(x.Args[0])
+			if err != nil {
+				return v, err
+			}
+			if _, lazy := v.V.(StructRefV); lazy && v.T != nil {
+				v.V = n.materialize(v)
+			}
+			return v, nil
+		}
 	case "now":
 		// now(e) inside old(...): e (typically a local variable) is evaluated in the current state
 		if len(x.Args) != 1 {
